@@ -308,3 +308,27 @@ func vecExtra(exp *ref.Content) func(string, segment.Segment) string {
 		return ""
 	}
 }
+
+func prepareVecBatch(b interface{}) { rand.Seed(12345) }
+
+// vecMergeOracle: searches on the merged segment == reference over the survivors.
+func vecMergeOracle(seg segment.Segment, exp *ref.Content) string {
+	if m := checkStats(seg, exp); m != "" {
+		return m
+	}
+	for _, field := range []string{"v", "w", "f"} {
+		for _, qv := range gridQueries {
+			for _, k := range []int64{1, 10} {
+				q := vecQuery{Field: field, Q: qv, K: k}
+				got, err := search(seg, q)
+				if err != nil {
+					return fmt.Sprintf("%s: error %v", q, err)
+				}
+				if m := checkResult(exp, q, got, true); m != "" {
+					return fmt.Sprintf("%s: %s", q, m)
+				}
+			}
+		}
+	}
+	return ""
+}
